@@ -5,6 +5,7 @@ package c09
 
 import (
 	"bufio"
+	"io"
 	"encoding/json"
 	"fmt"
 	"os"
@@ -25,7 +26,45 @@ type job struct {
 	Seed     uint64 `json:"seed,omitempty"`
 	Count    int    `json:"count,omitempty"`
 	Deadline int    `json:"deadline,omitempty"` // seconds, 0 = default
+	// stream reads (inside the worker only): the text is handed to the stream readers in blocks cut at Cuts;
+	// EOFWithLast: the last block comes together with io.EOF instead of a separate empty read
+	Cuts        []int `json:"-"`
+	EOFWithLast bool  `json:"-"`
 }
+
+// chunkReader hands out a text in the given blocks (an io.Reader may return fewer bytes than asked for).
+type chunkReader struct {
+	chunks      [][]byte
+	eofWithLast bool
+}
+
+func (c *chunkReader) Read(p []byte) (int, error) {
+	if len(c.chunks) == 0 {
+		return 0, io.EOF
+	}
+	n := copy(p, c.chunks[0])
+	c.chunks = c.chunks[1:]
+	if len(c.chunks) == 0 && c.eofWithLast {
+		return n, io.EOF
+	}
+	return n, nil
+}
+
+func cutBlocks(text []byte, cuts []int) (out [][]byte) {
+	prev := 0
+	for _, c := range cuts {
+		if c < prev || c > len(text) {
+			continue
+		}
+		out = append(out, text[prev:c])
+		prev = c
+	}
+	return append(out, text[prev:])
+}
+
+type nopCaller struct{}
+
+func (nopCaller) Call(s *slip.Scope, args slip.List, depth int) slip.Object { return nil }
 
 type result struct {
 	ID    int      `json:"id"`
@@ -104,6 +143,15 @@ func evalJob(j job) (r result) {
 		_ = slip.Read([]byte(j.Src), s)
 	case "read-one":
 		_, _ = slip.ReadOne([]byte(j.Src), s)
+	case "stream":
+		_, _ = slip.ReadStream(&chunkReader{chunks: cutBlocks([]byte(j.Src), j.Cuts), eofWithLast: j.EOFWithLast}, s)
+	case "stream-one":
+		_, _ = slip.ReadStream(&chunkReader{chunks: cutBlocks([]byte(j.Src), j.Cuts), eofWithLast: j.EOFWithLast}, s, true)
+	case "stream-each":
+		slip.ReadStreamEach(&chunkReader{chunks: cutBlocks([]byte(j.Src), j.Cuts), eofWithLast: j.EOFWithLast}, s, nopCaller{})
+	case "stream-push":
+		ch := make(chan slip.Object, 4096)
+		slip.ReadStreamPush(&chunkReader{chunks: cutBlocks([]byte(j.Src), j.Cuts), eofWithLast: j.EOFWithLast}, s, ch)
 	default:
 		code := slip.ReadString(j.Src, s)
 		for _, o := range code {
@@ -144,7 +192,79 @@ func readSweep(j job) (r result) {
 			}
 		}
 	}
+	// the same text through the stream readers, cut into blocks at the given positions
+	tryStream := func(in []byte, cuts []int, kinds []string, eofWithLast bool) {
+		r.N++
+		for _, k := range kinds {
+			res := evalJob(job{Kind: k, Src: string(in), Cuts: cuts, EOFWithLast: eofWithLast})
+			switch res.Class {
+			case "", "parse-error", "partial", "reader-error", "end-of-file":
+			case "error", "type-error":
+				// malformed contents of #nA(...), as for the templates below: Lisp conditions of a documented class
+			default:
+				if res.Fault == "" {
+					res.Fault = "condition of class " + res.Class + " from the reader"
+				}
+			}
+			if res.Fault != "" && len(r.Bad) < 20 {
+				r.Bad = append(r.Bad, fmt.Sprintf("%q in blocks cut at %v (%s, EOF with the last block: %v) => %s: %s", in, cuts, k, eofWithLast, res.Fault, res.Msg))
+			}
+		}
+	}
 	switch j.Src {
+	case "stream-cuts":
+		// EVERY template (and every byte string of length 1 and 2 over the syntax bytes) cut in two at EVERY position,
+		// read with ReadStream (all objects); the end of the stream alternately as a separate empty read and
+		// together with the last block; every fourth also in one-form mode and through ReadStreamEach
+		n := 0
+		var inputs [][]byte
+		for _, t := range readerTemplates() {
+			if len(t) <= 64 {
+				inputs = append(inputs, []byte(t))
+			}
+		}
+		for _, a := range syntaxBytes {
+			inputs = append(inputs, []byte{a})
+			for _, b := range syntaxBytes {
+				inputs = append(inputs, []byte{a, b})
+			}
+		}
+		for idx, in := range inputs {
+			if uint64(idx%2) != j.Seed%2 { // two jobs share the inputs
+				continue
+			}
+			for cut := 0; cut <= len(in); cut++ {
+				n++
+				kinds := []string{"stream"}
+				if n%4 == 0 {
+					kinds = []string{"stream", "stream-one", "stream-each"}
+				}
+				tryStream(in, []int{cut}, kinds, n%2 == 0)
+			}
+		}
+	case "stream-pairs":
+		// ALL pairs (what a block ends with, what the next block starts with) over the pieces lexemes are made of,
+		// cut exactly between them, with an empty block in between, with a third block, and with the stream ending
+		// after the first piece; through all four stream readers and both ways of ending a stream
+		heads := []string{`"`, `"a`, `"a\`, `|`, `|a`, `#\`, `#\a`, `#\Sp`, `#x`, `#xf`, `#b`, `#b1`, `#o`, `#o7`, `#36r`, `#3`, `#3r`, `#*`, `#*1`, `#`, `#(`, `#2A`, `#2A(`, `#C`, `#C(`, `#|`, `#|a|`,
+			`a`, `1`, `1.`, `1e`, `-`, `(`, `(a`, `'`, "`", `,`, `,@`, `;`, `; c`, `\`, `a\`, `@`, `@2024-01-`, `:`, `a:`, `a::`, `#:`, `#'`, `#.`, ` `, ``, `)`, `.`, `(a .`}
+		tails := []string{`"`, `abc"`, `\"x"`, `|`, `a|`, `a`, `a `, `Space `, `pace `, `ff `, `g `, `101 `, `2 `, `7 `, `z `, `r12 `, `)`, `1 2)`, `(1 2) (3 4))`, ` `, ``, "\n", "\n1 ", `|#`, `#`, `x41 `, `1 `, `.5 `, `5 `,
+			`02 `, `b `, `:b `, `(1 2) `, `'a `, ` b)`, `\`, `\ `, `#\a`, `#xff`, `#*1`, `"a"`, `|a|`}
+		kinds := []string{"stream", "stream-one", "stream-each", "stream-push"}
+		for _, h := range heads {
+			for _, eof := range []bool{false, true} {
+				tryStream([]byte(h), nil, kinds, eof) // the stream ends after the first piece
+				tryStream([]byte("1 "+h), []int{2}, kinds, eof)
+			}
+			for _, t := range tails {
+				text := []byte(h + t)
+				for _, eof := range []bool{false, true} {
+					tryStream(text, []int{len(h)}, kinds, eof)
+					tryStream(text, []int{len(h), len(h)}, kinds[:1], eof)             // an empty read in between
+					tryStream([]byte(h+t+" 7"), []int{len(h), len(h) + len(t)}, kinds[:1], eof) // three blocks
+				}
+			}
+		}
 	case "short": // every byte string of length 1 and 2
 		for a := 0; a < 256; a++ {
 			try([]byte{byte(a)})
